@@ -20,6 +20,10 @@ RESERVED_POOL = ["_h0", "_h1", "_h2", "_h10", "_rv0", "_rv1", "_fv0", "_fv1", "_
                  "f1_x", "f1__h0", "f2_a", "_sah", "_sch", "_ssh"] + SHELL_NAMES
 NEUTRAL_POOL = ["alpha", "Beta", "gamma9", "x", "X", "xx", "Xx", "value", "Value", "VALUE", "tmp", "res", "my_var", "a_1", "A_1", "counter", "Counter", "idx", "I", "zed",
                 "h1234567x", "fx_1", "under_score", "camelCase", "PascalCase", "n0", "N0", "q", "Q", "name", "Name", "text", "Text", "flag", "Flag", "it", "It"]
+# names that LOOK like the back-ends' own (same first characters) but are none of them: user names (round 6: C10-7, the function
+# prefix dropped for every name that starts with `_h`)
+LOOKALIKE_POOL = ["_host", "_hidden", "_height", "_rvalue", "_fvx", "_dvd", "_max", "_retval", "_x", "_y1", "_lsx", "_item", "_len2", "_h_", "_hh", "_ma",
+                  "_rv", "_fv", "_dv", "_h0x", "_rv0_", "f1", "f2x", "h0", "_sahara", "_lla", "_cc", "_nn", "__", "_0"]
 KEYWORDS = set(["import", "var", "func", "return", "if", "else", "switch", "case", "default", "for", "range", "break", "continue", "len", "print", "input", "copy", "itoa",
                 "exists", "read", "write", "panic", "nil", "bool", "int", "string", "error", "true", "false"])
 
@@ -234,6 +238,17 @@ def run(res, b, tier, seed):
             cases.append(pipeline.Case("p%d_reuse" % pi, {"main.tsh": rsrc0.encode()},
                                        meta=dict(expected_out=out, expected_status=status, src=rsrc0, original=src, renaming="reuse of names across scopes", reserved=[],
                                                  group=pi, clash=case_clash(identifiers(rp0)), **kf)))
+        # (d) the same, spelled with look-alikes of the compiler's names
+        ids0 = identifiers(rp0)
+        look = [n for n in LOOKALIKE_POOL if not is_reserved(n)]
+        if ids0 and len(ids0) <= len(look):
+            m0 = dict(zip(ids0, rng.sample(look, len(ids0))))
+            rp1 = rename_prog(rp0, m0)
+            rsrc1 = gen_prog.pp_program(rp1)
+            cases.append(pipeline.Case("p%d_lookalike" % pi, {"main.tsh": rsrc1.encode()},
+                                       meta=dict(expected_out=out, expected_status=status, src=rsrc1, original=src,
+                                                 renaming="reuse of names across scopes, spelled like compiler names: %s" % m0, reserved=[],
+                                                 group=pi, clash=case_clash(identifiers(rp1)), **kf)))
         for ri in range(nren):
             reserved = ri % 2 == 1
             pool = [n for n in (RESERVED_POOL if reserved else NEUTRAL_POOL) if n not in KEYWORDS]
@@ -292,6 +307,17 @@ def run(res, b, tier, seed):
         cases.append(pipeline.Case("ms%d" % i, {"main.tsh": msrc.encode(), "lib.tsh": LIB.encode()},
                                    meta=dict(expected_out=["200 11 AB xx"], expected_status=0, src=msrc, original=MAIN2 % dict(v="total", f="stride"),
                                              renaming="main-file identifiers spelled %s, %s next to std/strings (its parameter, local and function names)" % (v, f), reserved=[])))
+    # one spelling for a local of a function, a local of the function it calls, a parameter and a global defined after both:
+    # four different variables whatever the spelling is, in particular when it looks like a name of the back-ends
+    SCOPES = ('func inner(%(p)s string) string {\n\t%(n)s := "inner"\n\treturn %(n)s + %(p)s\n}\nfunc outer() string {\n\t%(n)s := "outer"\n\tx := inner("!")\n'
+              '\treturn %(n)s + " " + x\n}\nfunc third(%(n)s string) string {\n\ty := outer()\n\treturn %(n)s + " " + y\n}\nprint(outer())\n%(n)s := "global"\n'
+              'print(inner("?"), %(n)s)\nprint(third("param"), %(n)s)\n')
+    for i, nm in enumerate(["name", "q"] + [n for n in LOOKALIKE_POOL if not is_reserved(n)]):
+        ssrc = SCOPES % dict(n=nm, p="p" if nm != "p" else "q")
+        cases.append(pipeline.Case("sc%d" % i, {"main.tsh": ssrc.encode()},
+                                   meta=dict(expected_out=["outer inner!", "inner? global", "param outer inner! global"], expected_status=0, src=ssrc,
+                                             original=SCOPES % dict(n="name", p="p"),
+                                             renaming="one spelling (%s) for locals of caller and callee, a parameter and a later global" % nm, reserved=[])))
     dis, fails = semcheck.check_cases(b, cases, stages="asw")
     # Batch target, metamorphic: the script of a renamed program must behave (under the cmd model) like the script of the program
     # as generated - whatever that behaviour is (64-bit literals etc. are outside the cmd model's reference, equality is not)
